@@ -137,3 +137,78 @@ Example deep_equal_examples :
   (let h := [(1, OVal (VStruct 25 [VInt 2 7; VPtr 22 1])); (2, OVal (VStruct 25 [VInt 2 7; VPtr 22 2]))] in
    deep_equal 6 h (VPtr 22 1) (VPtr 22 2) = Some true).
 Proof. split; [exact deep_equal_nil_empty|exact deep_equal_cyclic]. Qed.
+
+(* ---------- reflect.Value get / set / convert for the scalar kinds ---------- *)
+From LLGoV Require Import Lib.BV.
+Local Open Scope Z_scope.
+
+(* Value.Convert between any two integer kinds, from either storage form of the operand, yields
+   Go's conversion T(x): the operand is extended according to the SOURCE kind (it is read with
+   Int or Uint), wrapped to the width of the target kind and read back with the target's sign. *)
+Theorem convert_int_matches_go : forall src dst indir x,
+  krange src x -> conv_read true src dst indir x = go_conv dst x.
+Proof. exact convert_int_go. Qed.
+Print Assumptions convert_int_matches_go.
+
+(* ... and the resulting Value is the canonical direct Value of T(x) *)
+Theorem convert_int_result : forall src dst indir x,
+  krange src x -> convert_int true (ival_of src indir x) dst = ival_of dst false (go_conv dst x).
+Proof. exact convert_int_value. Qed.
+Print Assumptions convert_int_result.
+
+Example convert_int_nontrivial :
+  krange KInt (-1) /\ conv_read true KInt KUint8 false (-1) = 255 /\
+  conv_read true KInt8 KUint32 true (-128) = 4294967168 /\ conv_read true KUint64 KInt16 false (2 ^ 63 + 32768) = -32768.
+Proof. repeat split; vm_compute; congruence. Qed.
+
+(* the makeInt before the repair (fx = false) kept the whole word *)
+Theorem convert_int_unfixed_refuted :
+  conv_read false KInt KUint8 false (-1) = 18446744073709551615 /\ go_conv KUint8 (-1) = 255 /\
+  conv_read false KInt KInt8 true 128 = 128 /\ go_conv KInt8 128 = -128.
+Proof. exact convert_int_unfixed_wrong. Qed.
+Print Assumptions convert_int_unfixed_refuted.
+
+(* SetInt(x) / SetUint(x) followed by Int() / Uint() returns x narrowed to the kind's width,
+   which is x itself when x is a value of the kind *)
+Theorem set_get_roundtrip : forall k x,
+  set_read k x = Some (go_conv k x) /\ (krange k x -> set_read k x = Some x).
+Proof. exact set_get_both. Qed.
+Print Assumptions set_get_roundtrip.
+
+(* OverflowInt / OverflowUint (argument an int64 resp. uint64) *)
+Theorem overflow_iff_not_representable : forall k x,
+  (if ksigned k then - 2 ^ 63 <= x < 2 ^ 63 else 0 <= x < 2 ^ 64) ->
+  overflow k x = true <-> ~ krange k x.
+Proof. exact overflow_spec. Qed.
+Print Assumptions overflow_iff_not_representable.
+
+(* floats: with rounding abstract (narrowing after widening is the identity; integers up to 2^53
+   resp. 2^24 are exact) float32 -> float64 -> float32 and the same-kind conversions return the
+   operand, widening is injective, and int -> float -> int is Go's integer conversion *)
+Theorem float_convert_roundtrip :
+  forall (f32 f64 : Type) (widen : f32 -> f64) (narrow : f64 -> f32),
+  (forall x, narrow (widen x) = x) ->
+  forall v, cvt_float f32 f64 widen narrow (cvt_float f32 f64 widen narrow v KFloat64) (fkind_of f32 f64 v) = v.
+Proof. exact float_widen_narrow. Qed.
+Print Assumptions float_convert_roundtrip.
+
+Theorem float_widen_is_injective :
+  forall (f32 f64 : Type) (widen : f32 -> f64) (narrow : f64 -> f32),
+  (forall x, narrow (widen x) = x) ->
+  forall x y, cvt_float f32 f64 widen narrow (F32 f32 f64 x) KFloat64 = cvt_float f32 f64 widen narrow (F32 f32 f64 y) KFloat64 -> x = y.
+Proof. exact float_widen_injective. Qed.
+Print Assumptions float_widen_is_injective.
+
+Theorem int_float_int_exact_partial :
+  forall (f32 f64 : Type) (widen : f32 -> f64) (narrow : f64 -> f32) (of_int : Z -> f64) (to_int : f64 -> Z),
+  (forall n, Z.abs n <= 2 ^ 53 -> to_int (of_int n) = n) ->
+  (forall n, Z.abs n <= 2 ^ 24 -> widen (narrow (of_int n)) = of_int n) ->
+  forall src dst indir x, krange src x ->
+  (Z.abs x <= 2 ^ 53 ->
+   value_read (cvt_float_int f32 f64 widen to_int true
+                 (cvt_int_float f32 f64 narrow of_int (ival_of src indir x) KFloat64) dst) = go_conv dst x) /\
+  (Z.abs x <= 2 ^ 24 ->
+   value_read (cvt_float_int f32 f64 widen to_int true
+                 (cvt_int_float f32 f64 narrow of_int (ival_of src indir x) KFloat32) dst) = go_conv dst x).
+Proof. exact int_float_int_both. Qed.
+Print Assumptions int_float_int_exact_partial.
